@@ -29,6 +29,32 @@ def is_reset_call(s) -> bool:
                for c in A.calls_in(s))
 
 
+def rewindable_toggle_resets(ctx, rm: REModel, rule: str, directions):
+    """Truth-table evaluation of the rewindable setter: for each (old, new) value of the flag with a resumable plan,
+    is the checkpoint reset executed?"""
+    from ..booleval import ev
+    st = rm.repo.func(MOD, f"{CLS}.rewindable.setter")
+    body = st.node.body
+    old_var = next((A.norm(s.targets[0]) for s in body if isinstance(s, ast.Assign) and A.norm(s.value) == "self._rewindable_flag"), None)
+    i_set = next((i for i, s in enumerate(body) if isinstance(s, ast.Assign) and A.chain(s.targets[0]) == "self._rewindable_flag"), None)
+    guards = [s for s in body[(i_set or 0):] if isinstance(s, ast.If) and any(is_reset_call(x) for x in A.walk_stmts(s.body))]
+    uncond = [s for s in body[(i_set or 0):] if is_reset_call(s)]
+    for old, new in directions:
+        if uncond:
+            done = True
+        elif guards and old_var is not None:
+            env = {old_var: old, "self._rewindable_flag": new, "self.resumable": True, "v": new}
+            done = ev(guards[0].test, env)
+        else:
+            done = False
+        what = "re-enabling" if new else "disabling"
+        ctx.ob(rule, cname(st, None, f"{what} rewinding ({old} -> {new}) resets the checkpoint"), done is True,
+               "" if done is True else (f"{what} rewinding does not reset the checkpoint: " +
+                ("messages executed and events emitted while not rewindable are not replayed, but the counters are rolled back past them"
+                 if new else "messages executed before the toggle would be replayed")) + ("" if done is False else " (guard not decidable)"),
+               nontrivial=True, where=where(st, st.node))
+
+
 def d1_cache_discipline(ctx, rm: REModel):
     repo = rm.repo
     run = rm.run
@@ -96,10 +122,7 @@ def d2_implicit_checkpoints(ctx, rm: REModel):
                "a later pause replays messages executed before this command", nontrivial=True, witness=w[-6:] if w else None, where=where(h, acts[0]))
     ctx.expect("C04.D2-implicit-checkpoint", 7)
     # toggling rewindability
-    st = repo.func(MOD, f"{CLS}.rewindable.setter")
-    ifs = [s for s in st.node.body if isinstance(s, ast.If) and "!=" in A.norm(s.test) and any(is_reset_call(x) for x in s.body)]
-    ctx.ob("C04.D2-implicit-checkpoint", cname(st, None, "a toggle of rewindable resets the checkpoint"), bool(ifs),
-           "" if ifs else "toggling rewindability no longer acts as a checkpoint", where=where(st, st.node))
+    rewindable_toggle_resets(ctx, rm, "C04.D2-implicit-checkpoint", directions=((True, False), (False, True)))
     hr = rm.handler("rewindable")
     ok = any(isinstance(s, ast.Assign) and A.chain(s.targets[0]) == "self.rewindable" for s in A.walk_stmts(hr.node.body))
     ctx.ob("C04.D2-implicit-checkpoint", cname(hr, None, "the 'rewindable' command goes through the property setter"), ok,
